@@ -399,9 +399,33 @@ def server_level(ctx, rng, hostile_cmds, hostile_handshakes):
                 if raw and [q for q, _ in raw] != [(1 + i) % 256 for i in range(len(raw))]:
                     problems.append(dict(kind="sequence", payload=list(payload[:64]), seq=seqid, seqs=[q for q, _ in raw][:5]))
                 if payload[:1] == bytes([cl.COM_CHANGE_USER]) and raw and raw[-1][1][:1] in (b"\xfe", b"\x01"):
-                    # the server legitimately started an auth-switch / more-data exchange and now waits for the
-                    # client's reply: not a command boundary.  End this connection and go on with a new one.
-                    target.eof()
+                    # the server legitimately started an auth-switch / more-data exchange and now waits for the client's reply:
+                    # not a command boundary.  Answer it with a hostile reply - a wrong sequence id with a short payload
+                    # left unread, or garbage - and apply the same rule: one ERR and in step, or closed and released.
+                    nreply = getattr(server_level, "_nreply", 0)
+                    server_level._nreply = nreply + 1
+                    hostile = [(7, b"abcd"), (0, b"pw\0"), (9, b"x"), (raw[-1][0] + 1, b""), (raw[-1][0] + 1, b"\xff" * 40)][nreply % 5]
+                    res = guarded(lambda: target.feed(cl.frame(hostile[1], hostile[0] % 256)))
+                    if res == ("Hang",):
+                        problems.append(dict(kind="hang", phase="change-user exchange", reply=list(hostile[1]), seq=hostile[0]))
+                        return problems, n
+                    try:
+                        raw2 = cl.split_raw(target.take())
+                    except ValueError as e:
+                        problems.append(dict(kind="garbled-output", phase="change-user exchange", error=str(e)))
+                        raw2 = []
+                    if target.blocked_on() == "read":
+                        if len([p for _, p in raw2 if p[:1] == b"\xff"]) > 1:
+                            problems.append(dict(kind="several-ERR", phase="change-user exchange", reply=list(hostile[1]), seq=hostile[0]))
+                        if raw2 and raw2[-1][1][:1] in (b"\xfe", b"\x01"):
+                            target.eof()      # yet another round trip requested: legitimate, stop here
+                        elif not ping_ok(target):
+                            problems.append(dict(kind="out-of-step", phase="change-user exchange", change_user=list(payload[:48]),
+                                                 reply=list(hostile[1]), seq=hostile[0]))
+                            target.eof()
+                    elif target.blocked_on() != "done":
+                        problems.append(dict(kind="stuck", phase="change-user exchange", state=target.blocked_on()))
+                        target.eof()
                     continue
                 if not ping_ok(target):
                     problems.append(dict(kind="out-of-step", payload=list(payload[:64]), seq=seqid))
